@@ -2314,8 +2314,9 @@ def c11_optimal_scaling_lemma(n):
 # ---------------------------------------------------------------- C10: combine_two_pops by explicit index arithmetic
 def c10_combine_two_pops(ns, tocombine):
     """Spectrum.combine_two_pops([a,b]) (1-based, any order) with lo = min, hi = max: entry j of the result is the sum of all entries idx with
-    idx[lo] + idx[hi] = j[lo] and the other indices equal; a result entry is masked iff a contributing entry is (or it is a corner);
-    labels 'lo+hi' in slot lo, slot hi removed; folded flag and extrap_x carried; total conserved."""
+    idx[lo] + idx[hi] = j[lo] and the other indices equal -- for every result entry that ends up unmasked; a result entry is masked iff a
+    contributing entry is (or it is a corner: the result is built with the constructor's default corner mask);
+    labels 'lo+hi' in slot lo, slot hi removed; folded flag and extrap_x carried; total over the non-corner entries conserved on unmasked input."""
     ns = tuple(ns)
     oid = 'C10/Spectrum_mod.py:Spectrum.combine_two_pops/ns%s.combine%s' % ('_'.join(map(str, ns)), '_'.join(map(str, tocombine)))
     fn = 'dadi/Spectrum_mod.py::Spectrum.combine_two_pops'
@@ -2392,14 +2393,21 @@ def c10_combine_two_pops(ns, tocombine):
         b = lambda x: z3.BoolVal(x) if isinstance(x, bool) else x
         rmask = at.get('mask')
         tot = z3.RealVal(0)
+        # numpy.ma arithmetic does not accumulate into (or from) a masked element, and the constructor masks the two corners of the result:
+        # the value law is stated -- as the property does -- for result entries that end up unmasked, i.e. no contributing entry is masked
+        # and the entry is not a corner.  (The executor adds plain numbers; under that hypothesis the two semantics coincide.)
+        tot_want = z3.RealVal(0)
         for j in itertools.product(*[range(s) for s in new_shape]):
             src = [idx for idx in f if target(idx) == j]
             want = sum((f[idx] for idx in src), z3.RealVal(0))
-            out.append(prove_eq('%s.entry%s' % (oid, '_'.join(map(str, j))), pc, _nd_get(res, j), want, fn))
-            tot = tot + to_real(exact(_nd_get(res, j)))
             corner = all(i == 0 for i in j) or all(i == s - 1 for i, s in zip(j, new_shape))
             out.append(prove('%s.mask%s' % (oid, '_'.join(map(str, j))), pc, b(_nd_get(rmask, j)) == z3.Or([z3.BoolVal(corner)] + [m[idx] for idx in src]), fn))
-        out.append(prove_eq(oid + '.total-conserved', pc, tot, sum(f.values(), z3.RealVal(0)), fn))
+            if corner:
+                continue
+            out.append(prove_eq('%s.entry%s' % (oid, '_'.join(map(str, j))), pc + [z3.Not(m[idx]) for idx in src], _nd_get(res, j), want, fn))
+            tot = tot + to_real(exact(_nd_get(res, j)))
+            tot_want = tot_want + want
+        out.append(prove_eq(oid + '.total-conserved', pc + [z3.Not(v) for v in m.values()], tot, tot_want, fn))
         return out
     return go()
 
